@@ -7,7 +7,7 @@ import (
 	"os"
 	"strconv"
 	"strings"
-	"sync"
+	"time"
 
 	"qeepverif/internal/beh"
 )
@@ -34,83 +34,79 @@ func (c *Ctx) ReplayDumpFile(path string) (int, error) {
 }
 
 func (c *Ctx) replayDumpFrom(sc *bufio.Scanner) (int, error) {
-	type job struct {
-		line string
-	}
-	jobs := make(chan string, 256)
-	var wg sync.WaitGroup
-	var n int
-	var mu sync.Mutex
-	var firstErr error
-	for w := 0; w < 16; w++ {
-		wg.Add(1)
-		go func() {
-			defer wg.Done()
-			for line := range jobs {
-				s, err := strconv.Unquote(line)
-				if err != nil {
-					mu.Lock()
-					if firstErr == nil {
-						firstErr = Brokenf("dump line does not unquote: %v: %.100s", err, line)
-					}
-					mu.Unlock()
-					continue
-				}
-				var b beh.Behaviour
-				if err := json.Unmarshal([]byte(s), &b); err != nil {
-					mu.Lock()
-					if firstErr == nil {
-						firstErr = Brokenf("dump line does not parse: %v: %.200s", err, s)
-					}
-					mu.Unlock()
-					continue
-				}
-				d, known := beh.Replay(&b)
-				if known && !c.AcceptRecorded {
-					if kf := c.Known("broadcast_grad_mean"); kf != nil {
-						c.SawKnown(kf)
-					} else {
-						c.Violate(fmt.Sprintf("behaviour of %d actions: a gradient equals the deviation broadcast_grad_mean, which is not a listed finding for %s", len(b.P), c.Prop), BehWitness{Behaviour: &b, Detail: "matches gradA"})
-					}
-				}
-				mu.Lock()
+	jobs := make(chan []byte, 256)
+	n := 0
+	go func() {
+		defer close(jobs)
+		sc.Buffer(make([]byte, 1<<20), 1<<26)
+		for sc.Scan() {
+			line := sc.Text()
+			if strings.HasPrefix(line, "\"{") {
 				n++
-				k := n
-				mu.Unlock()
-				if d != "" {
-					if strings.HasPrefix(d, "HARNESS") {
-						mu.Lock()
-						if firstErr == nil {
-							firstErr = Brokenf("%s", d)
-						}
-						mu.Unlock()
-						continue
-					}
-					// verdict only from reproducible behaviour
-					if d2, _ := beh.Replay(&b); d2 != "" {
-						c.Violate(fmt.Sprintf("behaviour of %d actions: %s", len(b.P), d), BehWitness{Behaviour: &b, Detail: d})
-					}
-				}
-				c.Count(structKey(&b), len(b.S) >= 2)
-				if k%20011 == 1 {
-					c.Sample(map[string]any{"path": b.P, "tensors_after": len(b.S)})
-				}
+				jobs <- []byte(line)
 			}
-		}()
-	}
-	sc.Buffer(make([]byte, 1<<20), 1<<26)
-	for sc.Scan() {
-		line := sc.Text()
-		if strings.HasPrefix(line, "\"{") {
-			jobs <- line
 		}
+	}()
+	parse := func(job []byte) *beh.Behaviour {
+		s, err := strconv.Unquote(strings.TrimSpace(string(job)))
+		if err != nil {
+			return nil
+		}
+		var b beh.Behaviour
+		if json.Unmarshal([]byte(s), &b) != nil {
+			return nil
+		}
+		return &b
 	}
-	close(jobs)
-	wg.Wait()
-	if firstErr != nil {
-		return n, firstErr
+	describe := func(job []byte) string {
+		if b := parse(job); b != nil {
+			return fmt.Sprintf("behaviour of %d actions", len(b.P))
+		}
+		return "behaviour"
+	}
+	witness := func(job []byte) any {
+		return BehWitness{Behaviour: parse(job), Detail: "the process died or hung while replaying this behaviour"}
+	}
+	if err := c.Farm([]string{"beh"}, jobs, 10*time.Minute, describe, witness); err != nil {
+		return n, err
 	}
 	return n, nil
+}
+
+// BehWorker is the body of "qv worker beh".
+func BehWorker(args []string) int {
+	k := 0
+	return WorkerMain(func(job []byte, r *Recorder) {
+		s, err := strconv.Unquote(strings.TrimSpace(string(job)))
+		if err != nil {
+			r.Broken(fmt.Sprintf("dump line does not unquote: %v: %.100s", err, job))
+			return
+		}
+		var b beh.Behaviour
+		if err := json.Unmarshal([]byte(s), &b); err != nil {
+			r.Broken(fmt.Sprintf("dump line does not parse: %v: %.200s", err, s))
+			return
+		}
+		d, known := beh.Replay(&b)
+		if known {
+			r.Known("broadcast_grad_mean", fmt.Sprintf("behaviour of %d actions", len(b.P)), BehWitness{Behaviour: &b, Detail: "matches gradA"})
+		}
+		k++
+		if d != "" {
+			if strings.HasPrefix(d, "HARNESS") {
+				r.Broken(d)
+				return
+			}
+			// verdict only from reproducible behaviour
+			if d2, _ := beh.Replay(&b); d2 != "" {
+				r.Violate(fmt.Sprintf("behaviour of %d actions: %s", len(b.P), d), BehWitness{Behaviour: &b, Detail: d})
+			}
+		}
+		r.Count(structKey(&b), len(b.S) >= 2)
+		if k%1801 == 1 {
+			r.Sample(map[string]any{"path": b.P, "tensors_after": len(b.S)})
+		}
+	})
 }
 
 func structKey(b *beh.Behaviour) string {
